@@ -648,5 +648,5 @@ func TestVerif_C12(t *testing.T) {
 	prop := c12Prop(k)
 	k.Regress(t, func(sub string, raw json.RawMessage) error { return verifkit.Decode(raw, prop) })
 	verifkit.Enumerate(k, t, "aspect-classes-singles-and-pairs", true, c12Aspects, prop)
-	verifkit.Rapid(k, t, "random-ra-pairs", k.N(6000, 300000), c12Gen, prop)
+	verifkit.Rapid(k, t, "random-ra-pairs", k.N(6000, 2000000), c12Gen, prop)
 }
